@@ -157,13 +157,18 @@ SPEC = {
                         "(each twice) between two observations, the model is not, and the observations must stay equal"],
     },
     "C17": {
-        "LEAN": {"modules": ["GfaProofs.C17"], "support": ["GfaModel.Groups", "GfaModel.Graph", "GfaProofs.Lemmas.Closure", "GfaProofs.C02"],
+        "LEAN": {"modules": ["GfaProofs.C17", "GfaProofs.C17Path"], "support": ["GfaModel.Groups", "GfaModel.Captured", "GfaModel.Graph", "GfaProofs.Lemmas.Closure", "GfaProofs.C02"],
                  "theorems": ["Gfa.C17.induced_iff_reach", "Gfa.C17.induced_contains_group", "Gfa.C17.induced_closed", "Gfa.C17.induced_least",
                               "Gfa.C17.induced_segments_iff", "Gfa.C17.induced_edges_iff", "Gfa.C17.mergeTags_spec",
                               "Gfa.C17.mergeTags_conflict", "Gfa.C17.mergeGroup_conflict_atomic", "Gfa.C17.merged_items_concat",
-                              "Gfa.C17.merged_items_concat_O", "Gfa.Closure.lfp_iff"]},
-        "ASSUMPTIONS": ["captured path of ordered groups: not in the Lean model; decided by the oracle (independent walk search over the "
-                        "written text, two readings of nesting) on the real library"],
+                              "Gfa.C17.merged_items_concat_O", "Gfa.Closure.lfp_iff",
+                              "Gfa.C17.captured_is_walk", "Gfa.C17.walk_shape", "Gfa.C17.supplied_edge_unique",
+                              "Gfa.C17.noncontiguous_error", "Gfa.C17.ambiguous_error", "Gfa.C17.fitting_joins"]},
+        "ASSUMPTIONS": ["captured path: the model follows captured_path.py method by method (recursion through nested groups by fuel = number "
+                        "of lines + 1; cyclic nesting is RecursionError in the library, `depth` in the model and excluded from the "
+                        "correspondence); proved: every returned path is an alternating walk whose edges join their neighbours and supplied "
+                        "edges are unique; that the walk is the one *the specification* implies is decided by the oracle (independent "
+                        "walk search, two readings of nesting)"],
     },
     "C20": {
         "LEAN": {"modules": ["GfaProofs.Bridge.Regex", "GfaProofs.C20", "GfaProofs.Bridge.Tags"],
